@@ -11,6 +11,7 @@ def run(rep):
         ["fun (A V : Type) sem sem_slf dv => @C02_realtime A V sem sem_slf dv {i} {w}",
          "fun (A V : Type) sem sem_slf dv => @C02_returned_was_sent A V sem sem_slf dv {i} {w}"],
         rt_common.std_configs(rng, rep.tier, families=False),
+        dfs=("bad_loss", "false"),
         search="c02_search", search_what="two clients, every messaging method, fair schedule; anomalies: 1 a call returned while alive but was never handed to the channel, 2 a client's calls executed out of issue order")
     runs = []
     for lib in gen_impl.LIBS:
